@@ -158,6 +158,15 @@ func (st *c18st) checkAll(base []string, when string) {
 			return
 		}
 	}
+	// the caller owns the returned list: scribbling over it must not influence what the next call reports
+	for i := range got {
+		got[i] = ""
+	}
+	if len(got) > 0 {
+		if again := log.GetAllTags(); len(again) != len(exp) || again[0] != exp[0] || again[len(again)-1] != exp[len(exp)-1] {
+			w.Violate("C18:getalltags-mismatch", when+": GetAllTags changed after the caller modified the previously returned list", map[string]any{"witness": "returned slice is shared"})
+		}
+	}
 }
 
 var c18alpha = []byte{'a', 'z', '0', '9', '_', 'A', '-', ' ', '.', 0x80}
